@@ -165,7 +165,9 @@ def rule_r5(rep, program: Program):
                 bind = uf[attr]
                 bargs = [norm(a) for a in bind.args]
                 r.inst({"method": f.qualname, "calls": f"self.{attr}", "bound by": f"{norm(bind.func)}({', '.join(bargs)[:60]})"})
-                if attr != f"_{name}":
+                # miswiring: the method is the wrapper of one user function but evaluates another
+                # (a method that is no wrapper and evaluates a user function directly is C18-R2's concern)
+                if attr != f"_{name}" and f"_{name}" in uf:
                     r.violate(PROP, f"{f.qualname}:calls:self.{attr}", f"{f.qualname} evaluates self.{attr} instead of self._{name}: it returns a different model function than its name says", node=f.node, file=f.file)
                 # argument of the call is the position
                 if not (calls[0].args and norm(calls[0].args[0]).endswith(".pos")):
